@@ -47,6 +47,9 @@ class _Faulty:
         self.dead = False            # the device of this session is gone
         self.sessions = 0
         self.close_calls = 0
+        self.silent = False          # asyncio only: the device of this session has gone quiet for good (fault "hang")
+        self.hangs = 0               # reads that are waiting for ever (only a cancellation ends them)
+        self.on_hang = None          # called (no arguments) when a read starts to wait for ever
 
     def _fopen(self):
         if self.open_fail is not None:
@@ -58,6 +61,7 @@ class _Faulty:
         self.delivered = 0
         self.sessions += 1
         self.dead = False
+        self.silent = False
         self.opened = True
 
     def _fclose(self):
@@ -148,6 +152,23 @@ class AsyncFaultTransport(_Faulty, AsyncScriptedTransport):
         self._fclose()
 
     async def read(self):
+        """fault kind "hang" (asyncio only): the device is connected and silent and NO scrapli timeout is running
+        (timeout_ops = 0, or longer than the caller is willing to wait): the read really waits — on a future nobody
+        completes — and only a cancellation of the awaiting task (task.cancel(), an outer asyncio.wait_for expiring)
+        ends it.  A device that went quiet stays quiet: every later read of the session waits as well."""
+        if self.opened and not self.dead:
+            a = self.armed
+            if not self.silent and a and a["kind"] == "hang" and a["phase"] == self.phase and self.fired is None \
+                    and self.count.get(self.phase, [0, 0])[0] + 1 >= a["at"]:
+                self.silent = True
+            if self.silent:
+                self._tick(0)
+                if self.fired is None:
+                    self.fired = (self.phase, "hang")
+                self.hangs += 1
+                if self.on_hang is not None:
+                    self.on_hang()
+                await asyncio.get_running_loop().create_future()
         return self._fread()
 
     def write(self, channel_input):
@@ -381,6 +402,51 @@ class ARunner:
         if self.stack == "sync":
             return fn(*a, **kw)
         return self.loop.run_until_complete(fn(*a, **kw))
+
+    def call_cancelling(self, fn, transport, how="task", max_hangs=8):
+        """asyncio only.  Run fn() as a task; whenever a read of `transport` starts to wait for ever (fault "hang")
+        the awaiting task is cancelled: how == "task": task.cancel() at every hang; how == "wait_for": the call is
+        wrapped in asyncio.wait_for(..., 0.02) — the first hang is ended by that timeout expiring (nothing else in a
+        scripted run ever yields to the loop, so the timer can only fire there), later hangs (the timeout context
+        cancels only once) by task.cancel().  Synchronisation is by events, never by sleeping.
+        Returns (value, number of hangs ended by task.cancel(), hangs ended by the wait_for timeout)."""
+        loop = self.loop
+        stats = {"cancels": 0, "timeouts": 0}
+
+        async def supervise():
+            hang = asyncio.Event()
+            prev, transport.on_hang = transport.on_hang, hang.set
+            inner = fn() if how != "wait_for" else asyncio.wait_for(fn(), 0.02)
+            task = loop.create_task(inner)
+            first = True
+            try:
+                while not task.done():
+                    waiter = loop.create_task(hang.wait())
+                    await asyncio.wait({task, waiter}, return_when=asyncio.FIRST_COMPLETED)
+                    if not waiter.done():
+                        waiter.cancel()
+                    if task.done():
+                        break
+                    hang.clear()
+                    if stats["cancels"] + stats["timeouts"] >= max_hangs:
+                        task.cancel()
+                        raise Starved()
+                    if how == "wait_for" and first:
+                        first = False
+                        stats["timeouts"] += 1
+                        # let the timer of wait_for end this wait; a further hang or the end of the task wakes us
+                        continue
+                    first = False
+                    stats["cancels"] += 1
+                    task.cancel()
+                return await task
+            finally:
+                transport.on_hang = prev
+        try:
+            return loop.run_until_complete(supervise()), stats
+        except BaseException as e:
+            e._c11_stats = stats
+            raise
 
     def close(self):
         if self.loop is not None:
